@@ -430,6 +430,53 @@ func findCase(class string, tags osm.Tags, key string) *wire.Case {
 	return c
 }
 
+func tagsOpsCase(class string, tags osm.Tags, key string) *wire.Case {
+	t := cloneTags(tags)
+	has := t.HasTag(key)
+	ft := t.FindTag(key)
+	mv, mp := t.Map()[key]
+	ai := t.AnyInteresting()
+	c := &wire.Case{Class: class}
+	c.Int(5)
+	putTags(c, tags)
+	pstr(c, key)
+	c.Bool(has).Bool(ft != nil)
+	d := map[string]interface{}{"call": "Tags.HasTag/FindTag/Map/AnyInteresting", "tags": showTags(tags), "key": show(key),
+		"has_tag": has, "map_present": mp, "map_value": show(mv), "any_interesting": ai}
+	if ft != nil {
+		pstr(c, ft.Key)
+		pstr(c, ft.Value)
+		d["find_tag"] = [2]string{show(ft.Key), show(ft.Value)}
+	} else {
+		pstr(c, "")
+		pstr(c, "")
+		d["find_tag"] = nil
+	}
+	c.Bool(mp)
+	pstr(c, mv)
+	c.Bool(ai)
+	if distinctKeys(tags) {
+		present, val, interesting := false, "", false
+		for _, x := range tags {
+			if x.Key == key {
+				present, val = true, x.Value
+			}
+			if !uninterestingCopy[x.Key] {
+				interesting = true
+			}
+		}
+		if has != present || (ft != nil) != present || mp != present || (present && (ft.Key != key || ft.Value != val || mv != val)) || ai != interesting {
+			c.OracleFail = "a helper of tag.go disagrees with the tag set"
+		}
+	}
+	c.Desc = d
+	return c
+}
+
+// independent copy of the documented uninteresting keys (tag.go), for the Go-side oracle only
+var uninterestingCopy = map[string]bool{"source": true, "source_ref": true, "source:ref": true, "history": true, "attribution": true,
+	"created_by": true, "tiger:county": true, "tiger:tlid": true, "tiger:upload_uuid": true}
+
 func isSorted(l []string) bool { return sort.StringsAreSorted(l) }
 
 func tableCase(rt []osm.VerifPolyCondition, names [3]string) *wire.Case {
@@ -529,7 +576,7 @@ func main() {
 	a := wire.ParseArgs()
 	rng := wire.Rng(a.Seed)
 	w := wire.NewWriter("C18", a.Seed, a.Tier)
-	w.Rule = "single-key sweep (exhaustive): every rule key (run-time table + published table) x (every value listed for any key + specials \"\", no, yes, unlisted, No, ... + byte-order neighbours of the key's own listed values [thorough: of all listed values]) x area in {absent, \"\", no, yes, x}, both tag orders alternating, on a closed 4-ring; length sweep 0..7 x closed/open/all-equal x tag sets; every id sequence over {1,2,3} of length 0..5; way nodes are full WayNode values: half of all way cases bare refs, the others rotate through 7 annotation patterns (own location per position, same spot at both ends with different ids, ends only, one end only, all on one spot, version without location) plus a dedicated pattern x refs x tag-set sweep and random nodes over small id/version/location alphabets; near-miss keys (rule key, area, type with a space/colon/s/NUL added, a byte dropped, upper case) with firing values; pairs (list key x any key) x pass/fail/no values x both orders; random tag sets in 3-6 (or all) orders; irrelevant and near-miss keys inserted; duplicate keys (model only); the other fields of Way / Relation (id, version, visible, user, timestamp, committed, updates, bounds, members) rotate through 6 variants and must not matter; relations: type values x other tags x positions; Tags.Find on present/absent/near-miss keys; the run-time table. distinct = distinct token streams; trivial = none."
+	w.Rule = "single-key sweep (exhaustive): every rule key (run-time table + published table) x (every value listed for any key + specials \"\", no, yes, unlisted, No, ... + byte-order neighbours of the key's own listed values [thorough: of all listed values]) x area in {absent, \"\", no, yes, x}, both tag orders alternating, on a closed 4-ring; length sweep 0..7 x closed/open/all-equal x tag sets; every id sequence over {1,2,3} of length 0..5; way nodes are full WayNode values: half of all way cases bare refs, the others rotate through 7 annotation patterns (own location per position, same spot at both ends with different ids, ends only, one end only, all on one spot, version without location) plus a dedicated pattern x refs x tag-set sweep and random nodes over small id/version/location alphabets; near-miss keys (rule key, area, type with a space/colon/s/NUL added, a byte dropped, upper case) with firing values; pairs (list key x any key) x pass/fail/no values x both orders; random tag sets in 3-6 (or all) orders; irrelevant and near-miss keys inserted; duplicate keys (model only); the other fields of Way / Relation (id, version, visible, user, timestamp, committed, updates, bounds, members) rotate through 6 variants and must not matter; relations: type values x other tags x positions; Tags.Find and HasTag/FindTag/Map/AnyInteresting on present/absent/near-miss/duplicated keys and on the uninteresting keys; the run-time table. distinct = distinct token streams; trivial = none."
 	thorough := a.Tier == "thorough"
 
 	rt := osm.VerifPolyConditions()
@@ -862,6 +909,8 @@ func main() {
 		// Tags.Find on a present and on an absent / near-miss key
 		w.Add(findCase("find", tags, tags[rng.Intn(len(tags))].Key))
 		w.Add(findCase("find", t, pick(irrelevant)))
+		w.Add(tagsOpsCase("tags-ops", tags, tags[rng.Intn(len(tags))].Key))
+		w.Add(tagsOpsCase("tags-ops", t, pick(irrelevant)))
 		// a duplicate key (outside the property: only the model is compared)
 		if s%5 == 0 {
 			d := cloneTags(tags)
@@ -871,6 +920,7 @@ func main() {
 			d = append(d[:pos], append(osm.Tags{dup}, d[pos:]...)...)
 			w.Add(wayCase("dup", ids, d))
 			w.Add(findCase("find-dup", d, dup.Key))
+			w.Add(tagsOpsCase("tags-ops-dup", d, dup.Key))
 		}
 	}
 	for _, d := range []osm.Tags{
@@ -913,6 +963,38 @@ func main() {
 		w.Add(relCase("relation-dup", d))
 	}
 
+	// AnyInteresting: only uninteresting keys, mixtures, near misses, none
+	var ukeys []string
+	for k, v := range osm.UninterestingTags {
+		if v {
+			ukeys = append(ukeys, k)
+		}
+	}
+	sort.Strings(ukeys)
+	{
+		c := &wire.Case{Class: "uninteresting-set"}
+		c.Int(6).Len(len(ukeys))
+		for _, k := range ukeys {
+			pstr(c, k)
+		}
+		c.Desc = map[string]interface{}{"call": "UninterestingTags (keys mapped to true)", "observed": ukeys}
+		w.Add(c)
+	}
+	var allU osm.Tags
+	for _, k := range ukeys {
+		allU = append(allU, osm.Tag{Key: k, Value: "x"})
+		w.Add(tagsOpsCase("tags-ops", osm.Tags{{Key: k, Value: "x"}}, k))
+		w.Add(tagsOpsCase("tags-ops", osm.Tags{{Key: k, Value: ""}, {Key: "name", Value: "y"}}, "name"))
+		for _, nk := range []string{k + " ", strings.ToUpper(k[:1]) + k[1:], k[:len(k)-1], k + "s"} {
+			w.Add(tagsOpsCase("tags-ops", osm.Tags{{Key: nk, Value: "x"}}, k))
+		}
+	}
+	w.Add(tagsOpsCase("tags-ops", nil, "name"))
+	w.Add(tagsOpsCase("tags-ops", allU, "history"))
+	w.Add(tagsOpsCase("tags-ops", append(cloneTags(allU), osm.Tag{Key: "building", Value: "yes"}), "building"))
+	w.Add(tagsOpsCase("tags-ops", append(osm.Tags{{Key: "", Value: ""}}, allU...), ""))
+	w.Add(tagsOpsCase("tags-ops-dup", osm.Tags{{Key: "a", Value: "1"}, {Key: "b", Value: "2"}, {Key: "a", Value: "3"}}, "a"))
+
 	// 6. the run-time table (after the sweep, so that a wrong table is first reported by a
 	// concrete misclassified way)
 	w.Add(tableCase(rt, names))
@@ -936,6 +1018,10 @@ func main() {
 		c6.Toks[len(c6.Toks)-1] = 2 // an open way with a duplicate location at both ends reported as area
 		c6.Canary, c6.OracleFail = 1, ""
 		w.Add(c6)
+		c7 := tagsOpsCase("", osm.Tags{{Key: "source", Value: "x"}, {Key: "created_by", Value: "y"}}, "source")
+		c7.Toks[len(c7.Toks)-1] = 2 // AnyInteresting reported true for uninteresting tags only
+		c7.Canary, c7.OracleFail = 1, ""
+		w.Add(c7)
 		c5 := findCase("", osm.Tags{{Key: "name", Value: "x"}, {Key: "area", Value: "yes"}}, "area")
 		c5.Toks[len(c5.Toks)-1] ^= 1 // last byte of the observed value
 		c5.Canary, c5.OracleFail = 1, ""
